@@ -1,4 +1,5 @@
 """C16 — TLE source precedence: given lines, then file, then TLES, then network only; platforms registry."""
+import glob as _glob
 import io
 import json
 import os
@@ -89,11 +90,57 @@ LINES_KINDS = ["both", "l1", "l2", "none"]
 # given sources that are configured but yield nothing for the platform ("... no network request is made, even if it yields nothing")
 TF_NOTHING = ["xml_nonav", "xml_without", "path_empty", "path_nameonly", "path_without", "stringio_empty", "stringio_without"]
 TF_KINDS = ["none", "path", "stringio", "xml", "empty"] + TF_NOTHING
-TLES_KINDS = ["unset", "A", "B", "C", "nothing", "empty"]
-CFG_KINDS = ["unset", "withfile", "without", "missing"]      # missing: the variable names a directory that does not exist
-PPP_KINDS = [False, True, "nodir"]                           # nodir: PPP_CONFIG_DIR is set to a directory that does not exist
-CFG_CODE = {"unset": "u", "withfile": "f", "without": "d", "missing": "d"}   # the model's classes (no file = dirWithout)
 ORDERS = {"A": ["a", "b", "c"], "B": ["c", "b", "a"], "C": ["a", "c", "b"]}   # creation order; the last is the newest
+# Further TLES values: (kind, pattern, directory/file whose elements the statement requires | None = matches nothing).
+# {W} is the experiment's directory (absolute spelling); a pattern without it is RELATIVE to the child's working directory.
+# What "matching the TLES pattern" means is what glob.glob gives: `*`, `?`, `[...]` in any path component, a leading dot is
+# matched only by a literal dot.  prepare() verifies every line of this table with glob.glob itself.
+#   tlesH: tle-1.txt < tle-2.txt < .tle-3.txt.part < .tle-4.txt           (hidden files newer than every visible file)
+#   tlesP: tle-1.txt < tle-2.txt < tle-3.txt < tle-10.txt < .tle-4.txt
+#   tlesD: 2021/tle.txt < 2008/tle.txt < 2015/tle.txt < .staging/tle.txt   (wildcards in the directory part)
+#   tlesM: archive.tle/ (a directory, older) < a.tle < b.tle               (the pattern matches a directory as well)
+TLES_MORE = [
+    ("A_rel", "tlesA/*.tle", "A"), ("B_dot", "./tlesB/*.tle", "B"), ("C_up", "tlesA/../tlesC/*.tle", "C"),
+    ("C_absup", "{W}/tlesA/../tlesC/*.tle", "C"), ("A_dslash", "{W}/tlesA//*.tle", "A"), ("nothing_rel", "no_such_dir/*.tle", None),
+    ("H_star", "{W}/tlesH/*", "tlesH/tle-2.txt"), ("H_ext", "{W}/tlesH/*.txt", "tlesH/tle-2.txt"),
+    ("H_rel", "./tlesH/*tle*", "tlesH/tle-2.txt"), ("H_only", "{W}/tlesH/*.part", None), ("H_q", "tlesH/?tle-?.txt", None),
+    ("P_q", "{W}/tlesP/tle-?.txt", "tlesP/tle-3.txt"), ("P_set", "{W}/tlesP/tle-[12].txt", "tlesP/tle-2.txt"),
+    ("P_neg", "tlesP/tle-[!3].txt", "tlesP/tle-2.txt"), ("P_star", "{W}/tlesP/tle-*.txt", "tlesP/tle-10.txt"),
+    ("P_one", "{W}/tlesP/tle-1.txt", "tlesP/tle-1.txt"),
+    ("D_star", "{W}/tlesD/*/tle.txt", "tlesD/2015/tle.txt"), ("D_q", "tlesD/20?[18]/tle.txt", "tlesD/2008/tle.txt"),
+    ("D_two", "{W}/tles[D]/2*/t*.txt", "tlesD/2015/tle.txt"),
+    ("M_dir", "{W}/tlesM/*.tle", "tlesM/b.tle"),
+]
+TLES_DIRS = {"tlesH": ["tle-1.txt", "tle-2.txt", ".tle-3.txt.part", ".tle-4.txt"],
+             "tlesP": ["tle-1.txt", "tle-2.txt", "tle-3.txt", "tle-10.txt", ".tle-4.txt"],
+             "tlesD": ["2021/tle.txt", "2008/tle.txt", "2015/tle.txt", ".staging/tle.txt"],
+             "tlesM": ["a.tle", "b.tle"]}
+TLES_KINDS = ["unset", "A", "B", "C", "nothing", "empty"] + [k for k, _, _ in TLES_MORE]
+# PYORBITAL_CONFIG_PATH: (kind, value, does that directory hold a platforms.txt, working directory of the child below {W}).
+# A relative value is a directory of the process like any other ("when that directory holds a platforms.txt").
+CFG_SPECS = [
+    ("unset", None, False, ""),
+    ("withfile", "{W}/cfg_with", True, ""),
+    ("without", "{W}/cfg_without", False, ""),
+    ("missing", "{W}/cfg_no_such_dir", False, ""),       # the variable names a directory that does not exist
+    ("rel_with", "cfg_with", True, ""),
+    ("reldot_with", "./cfg_with", True, ""),
+    ("relslash_with", "cfg_with/", True, ""),
+    ("relup_with", "cfg_without/../cfg_with", True, ""),
+    ("relnested_with", "conf/with", True, ""),
+    ("absslash_with", "{W}/cfg_with/", True, ""),
+    ("absup_with", "{W}/cfg_without/../cfg_with", True, ""),
+    ("dot_with", ".", True, "cfg_with"),
+    ("rel_without", "cfg_without", False, ""),
+    ("relnested_without", "./conf/without/", False, ""),
+    ("rel_missing", "cfg_no_such_dir", False, ""),
+    ("dot_without", ".", False, ""),
+]
+CFG_KINDS = [k for k, _, _, _ in CFG_SPECS]
+CFG_HOLDS = {k: h for k, _, h, _ in CFG_SPECS}
+# nodir: PPP_CONFIG_DIR is set to a directory that does not exist; rel: a relative spelling of the directory holding its own file
+PPP_KINDS = [False, True, "nodir", "rel"]
+CFG_CODE = {k: ("u" if v is None else "f" if h else "d") for k, v, h, _ in CFG_SPECS}   # the model's classes (no file = dirWithout)
 
 
 def collection(l1, l2, with_platform=True):
@@ -150,8 +197,11 @@ def prepare(work):
     os.makedirs(os.path.join(work, "cfg_with"))
     os.makedirs(os.path.join(work, "cfg_without"))
     os.makedirs(os.path.join(work, "ppp"))
-    with open(os.path.join(work, "cfg_with", "platforms.txt"), "w") as f:
-        f.write("# custom registry\nNOAA-19 33591\nPVSAT 99001\n")
+    os.makedirs(os.path.join(work, "conf", "with"))
+    os.makedirs(os.path.join(work, "conf", "without"))
+    for d in ("cfg_with", os.path.join("conf", "with")):
+        with open(os.path.join(work, d, "platforms.txt"), "w") as f:
+            f.write("# custom registry\nNOAA-19 33591\nPVSAT 99001\n")
     with open(os.path.join(work, "ppp", "platforms.txt"), "w") as f:
         f.write("NOAA-19 33591\nPPPSAT 99002\n")
     with open(os.path.join(work, "cfg_without", "other.cfg"), "w") as f:      # the directory is in use, for something else
@@ -159,6 +209,14 @@ def prepare(work):
     spec["cfg"] = {"withfile": os.path.join(work, "cfg_with"), "without": os.path.join(work, "cfg_without"),
                    "missing": os.path.join(work, "cfg_no_such_dir"),
                    "ppp": os.path.join(work, "ppp"), "ppp_nodir": os.path.join(work, "ppp_no_such_dir")}
+    # every spelling of PYORBITAL_CONFIG_PATH with the working directory it is used from
+    spec["cfg_env"] = {}
+    for kind, value, holds, cwd in CFG_SPECS:
+        v = None if value is None else value.replace("{W}", work)
+        spec["cfg_env"][kind] = {"value": v, "cwd": os.path.join(work, cwd) if cwd else work, "holds": holds,
+                                 "spelled": value, "cwd_spelled": "{W}/" + cwd if cwd else "{W}"}
+        if v is not None and os.path.isfile(os.path.join(spec["cfg_env"][kind]["cwd"], v, "platforms.txt")) != holds:
+            raise RuntimeError("C16 harness: PYORBITAL_CONFIG_PATH kind %s is not what its table line says" % kind)
     p = os.path.join(work, "given.tle")
     with open(p, "w") as f:
         f.write(collection(*tagged(TAGS["P"])))
@@ -224,6 +282,42 @@ def prepare(work):
     os.link(os.path.join(dd, "k.tle"), os.path.join(dd, "b.tle"))
     spec["tles"]["Tie"] = {"pattern": os.path.join(dd, "*.tle")}
     spec["tles"]["nothing"] = {"pattern": os.path.join(work, "no_such_dir", "*.tle")}
+    # hidden files, ?, [...] and wildcard directories; a directory among the matches (TLES_MORE)
+    num = 300
+    tag_at = {}
+    os.makedirs(os.path.join(work, "tlesM", "archive.tle"))       # a directory that `*.tle` matches, older than the files
+    with open(os.path.join(work, "tlesM", "archive.tle", "old.tle"), "w") as f:
+        f.write(collection(*tagged(299)))
+    spec["tags"]["TM/archive.tle/old.tle"] = list(tagged(299))
+    for d, names in sorted(TLES_DIRS.items()):
+        items = []
+        for name in names:
+            num += 1
+            tag = "T%s/%s" % (d[4:], name)
+            spec["tags"][tag] = list(tagged(num))
+            tag_at["%s/%s" % (d, name)] = tag
+            os.makedirs(os.path.dirname(os.path.join(work, d, name)), exist_ok=True)
+            items.append((os.path.join(work, d, name), collection(*tagged(num))))
+        _create_in_order(items)
+    for d in "ABC":
+        tag_at[d] = spec["tles"][d]["files"][ORDERS[d][-1]]["tag"]
+    for kind, pattern, want in TLES_MORE:
+        rel = "{W}" not in pattern
+        pat = pattern.replace("{W}", work)
+        # the table's expectation IS glob.glob's answer (checked here, with the library itself, from the directory the
+        # relative spellings are relative to)
+        matches = _glob.glob(pat, root_dir=work) if rel else _glob.glob(pat)
+        if want is None:
+            if matches:
+                raise RuntimeError("C16 harness: TLES kind %s should match nothing, matches %r" % (kind, matches))
+        else:
+            full = [os.path.normpath(os.path.join(work, m)) for m in matches]
+            cts = [os.path.getctime(m) for m in full]
+            newest = [m for m, ct in zip(full, cts) if ct == max(cts)]
+            want_path = os.path.join(work, want) if "/" in want else spec["tles"][want]["files"][ORDERS[want][-1]]["path"]
+            if newest != [os.path.normpath(want_path)] or len(full) < 2 and kind != "P_one":
+                raise RuntimeError("C16 harness: TLES kind %s: newest match %r, table says %r" % (kind, newest, want_path))
+        spec["tles"][kind] = {"pattern": pat, "rel": rel, "expect": tag_at[want] if want else None, "spelled": pattern}
     return spec
 
 
